@@ -258,6 +258,35 @@ def make_geom(pd, n):
     return cuqi.geometry.Image2D((n, n))
 
 
+def decoy_other_layout(pd, n, bc, order, family="GMRF"):
+    """Before the object under test is built, build and use an MRF with the SAME number of nodes, boundary condition and order on
+    the OTHER grid layout (n x n image <-> line of n*n nodes): anything the library remembers between objects under a key that
+    does not tell the two apart would now be handed to the object under test."""
+    import cuqi
+    D = cuqi.distribution
+    if pd == 2:
+        geom, N = n * n, n * n
+    else:
+        r = int(round(np.sqrt(n)))
+        if r * r != n or r < 2:
+            return False
+        geom, N = cuqi.geometry.Image2D((r, r)), n
+
+    def build_and_use():
+        if family == "GMRF":
+            d = D.GMRF(np.zeros(N), 1.7, bc_type=bc, order=order, geometry=geom)
+            _ = d.sqrtprec
+        elif family == "LMRF":
+            d = D.LMRF(0.0, 0.8, bc_type=bc, geometry=geom)
+        else:
+            d = D.CMRF(0.0, 0.8, bc_type=bc, geometry=geom)
+        d.logd(np.linspace(0, 1, N))
+        if family == "GMRF":
+            d.sample(1, rng=np.random.RandomState(0))
+    refused, _ = refuses(build_and_use)
+    return not refused
+
+
 def run_gmrf(c, rec):
     import cuqi
     tags = tags_of(c)
@@ -268,6 +297,8 @@ def run_gmrf(c, rec):
     mean = A(c["mean"]) if isinstance(c["mean"], list) else c["mean"]
     x = A(c["x"])
     delta = c["prec"]
+    if decoy_other_layout(pd, n, bc, order):
+        rec.count("decoy_other_layout_built_first")
     G = must(lambda: cuqi.distribution.GMRF(mean, delta, bc_type=bc, order=order, geometry=make_geom(pd, n)),
              "constructing GMRF")
     mu = np.broadcast_to(np.asarray(mean, dtype=float), (dim,))
